@@ -47,8 +47,15 @@ Theorem C14_oracle_sound : forall c,
   match c with
   | CReader tr failed => reader_orderb false false tr = true /\ failed = false
   | CWriter tr n => writer_orderb false false tr = true /\ n = 0
+  | CWriterSem v0 tr => wfb v0 tr = true
   end.
 Proof. exact check_C14_spec. Qed.
+
+(* writer streams accepted by the oracle (decoded real uploads) are premises of the reader theorem *)
+Theorem C14_accepted_writers_give_reader_guarantee : forall v streams sched t1 t2,
+  Forall (fun s => check_C14 (CWriterSem v s) = true) streams -> t1 <= t2 ->
+  reader_ok v (run_sched streams sched) t1 t2 = true.
+Proof. exact accepted_writers_give_reader_guarantee. Qed.
 
 Print Assumptions C14_interleaving_disciplined.
 Print Assumptions C14_reader_sees_closed.
@@ -59,3 +66,4 @@ Print Assumptions C14_reader_order_meaning.
 Print Assumptions C14_no_snapshot_listing_after_index.
 Print Assumptions C14_writer_snapshot_last.
 Print Assumptions C14_oracle_sound.
+Print Assumptions C14_accepted_writers_give_reader_guarantee.
